@@ -8,7 +8,7 @@ REQUIRED = ["CifModel.C07_serialize_roundtrip", "CifModel.C07_serialize_buffer",
             "CifModel.C07_constructible_roundtrip", "CifModel.C07_store_read", "CifModel.C07_store_read_loop_routes",
             "CifModel.C07_store_read_delivers_cells", "CifModel.C07_stored_read_identical", "CifModel.C07_refused_not_stored", "CifModel.C07_numb_in_list_partial", "CifModel.C07_numb_list_roundtrip",
             "CifModel.C07_parser_route", "CifModel.C07_parser_values_numbFree", "CifModel.C07_numbFree_constructible", "CifModel.Model.Parser.values_numbFree", "CifModel.Model.Parser.storeTrace_wf", "CifModel.Model.Parser.parseT_out", "CifModel.Model.Parser.parse_replay",
-            "CifModel.C07_routes_stored", "CifModel.C07_iter_read_identical", "CifModel.C07_walk_read_identical", "CifModel.C07_walk_block_position",
+            "CifModel.C07_routes_stored", "CifModel.C07_iter_read_identical", "CifModel.C07_walk_read_identical", "CifModel.C07_walk_block_position", "CifModel.C07_walk_frame_position",
             "CifModel.C07_iteration_is_stored", "CifModel.C07_item_loop_handle", "CifModel.C07_number_read_identical",
             "CifModel.C07_get_value_flag", "CifModel.C07_set_value_flag", "CifModel.C07_read_paths_identical", "CifModel.C07_parser_read_paths",
             "CifModel.Store.drain_spec", "CifModel.Store.readLoop_spec", "CifModel.Store.readLoop_cell", "CifModel.Store.walk_delivers_item",
@@ -64,8 +64,9 @@ PARTIAL = [
     "get_packets / next_packet) calls the item handler with the stored value and returns CIF_OK; C07_parser_read_paths: the same for "
     "every store call the parser model records.  NOT proved / hypotheses left: (i) the walk theorem assumes that the CIF has no "
     "packet-less loop (cif_walk stops at one with CIF_EMPTY_LOOP, C14_empty_loop) and takes the position of the item's container in "
-    "the walker's tree as a hypothesis (InCont: discharged for data blocks by C07_walk_block_position; for a save frame nested in "
-    "containers it is a fact about all_frames not proved here); (ii) the walk statement is for handlers that always continue — what a "
+    "the walker's tree as a hypothesis (InCont: discharged for data blocks by C07_walk_block_position and for a save frame at any "
+    "depth by C07_walk_frame_position, given the chain of frames leading to it and that the chain is no longer than the walker's depth "
+    "bound, number of save frames + 1 — that every chain of a reachable store is that short is not proved here); (ii) the walk statement is for handlers that always continue — what a "
     "handler's navigation answers suppress is C14's business; (iii) Model/StoreRead composes existing models in the order cif.c calls "
     "the C functions (walk_loop: get_packets, next_packet..., close) and assumes that a read-only walk leaves the store as it is between "
     "loops (closeIter after an iteration without updates commits an unchanged database: C06_close_commits) — the composition is tied to "
@@ -80,8 +81,8 @@ PARTIAL = [
     "the doubles of every top-level number read back (d= field) with the model's, bit for bit.  NaN in column `val`: ASSUMPTIONS",
     "several packets: the flag is pinned — C07_get_value_flag (any Good state: no packet CIF_NOSUCH_ITEM, one packet CIF_OK, two or more "
     "CIF_AMBIGUOUS_ITEM with the FIRST packet's value) and C07_set_value_flag (after set_value on an existing item: (v, n >= 2) with n "
-    "the number of packets of the item's loop in the state read); not proved: that set_value leaves the number of packets unchanged "
-    "(loopRows before = loopRows after; true of the model, observed by storeval f=)",
+    "the number of packets of the item's loop, which the call leaves unchanged: loopRows before = loopRows after, second conjunct); "
+    "for the other routes the flag follows from C07_get_value_flag in the state read; family storeval compares the code (f=)",
     "independence of the stored copy from the caller's object: immediate in the model (values are immutable); at the C level "
     "observed by family storeval (the object is changed and released before reading back) under ASan",
 ]
